@@ -40,7 +40,7 @@ man = dict(
     hooks=dict(
         guard="MDOLAB_OPENAEROSTRUCT_VERIF",
         enable="no source hooks: checks import /repo's working tree via PYTHONPATH=/repo (set by ./check); the guard variable is exported but nothing in /repo reads it",
-        baseline_off_cmd="cd /repo && /venv/bin/python -m pytest -ra -q -p no:cacheprovider --timeout=900 --continue-on-collection-errors -n 16",
+        baseline_off_cmd="cd /repo && env -u MDOLAB_OPENAEROSTRUCT_VERIF /venv/bin/python -m pytest -ra -q -p no:cacheprovider --timeout=900 --continue-on-collection-errors",
         source_commits=[],
         add_only=True,
     ),
